@@ -550,7 +550,7 @@ Proof.
   destruct md as [l|]; simpl; [|intros _; exists None; reflexivity].
   intros (Hl & Ho).
   destruct (negb (Nat.eqb (length l) 0) && forallb falsy l && Nat.eqb (length l) n); [exists None; reflexivity|].
-  unfold cast_md. destruct (forallb is_none l); [exists None; reflexivity|]. rewrite Ho. eexists. reflexivity.
+  unfold cast_md. destruct (forallb is_blank l); [exists None; reflexivity|]. rewrite Ho. eexists. reflexivity.
 Qed.
 
 Lemma wellformed_quiet nr nc oids sids omd smd :
@@ -589,7 +589,7 @@ Qed.
 Lemma cast_md_other l : existsb is_other l = true -> cast_md (Some l) = RErr E_TABLE.
 Proof.
   intros H. unfold cast_md.
-  assert (forallb is_none l = false).
+  assert (forallb is_blank l = false).
   { apply existsb_exists in H. destruct H as [e [He Ho]]. apply not_true_is_false. intros F.
     rewrite forallb_forall in F. specialize (F e He). destruct e; discriminate. }
   rewrite H0, H. reflexivity.
@@ -626,7 +626,7 @@ Proof.
       - rewrite (norm_md_truthy l _ Ht), (cast_md_other l Ho).
         destruct (cast_md (norm_md smd (length sids))) as [s|c] eqn:Es; [reflexivity|].
         destruct (norm_md smd (length sids)) as [l'|]; [|discriminate]. unfold cast_md in Es.
-        destruct (forallb is_none l'); [discriminate|]. destruct (existsb is_other l'); [|discriminate].
+        destruct (forallb is_blank l'); [discriminate|]. destruct (existsb is_other l'); [|discriminate].
         inversion Es. reflexivity.
       - rewrite (norm_md_truthy l _ Ht), (cast_md_other l Ho). reflexivity. }
     destruct (errcheck q _ []) as [[| | | |]|e] eqn:Ee.
